@@ -223,22 +223,42 @@ def model(requests, with_unicode=True, names=None):
 
 def runner(requests):
     """answers of the Rust runner; a request that kills the process (stack overflow, abort: no unwinding, so `catch_unwind` in
-    the runner cannot see it) is answered {"panic": "process killed by signal N …", "crash": true} and the remaining requests go to a fresh process"""
+    the runner cannot see it) is answered {"panic": "process killed by signal N …", "crash": true}, one that is not answered within
+    the time limit (an endless loop) {"panic": "no answer within N s …", "hang": true}; the remaining requests go to a fresh process"""
     lines = [json.dumps(r, ensure_ascii=False) for r in requests]
     out = []
+    hangs = 0
     while True:
         rest = lines[len(out):]
-        p = subprocess.run([RUNNER_BIN], input="\n".join(rest) + "\n", stdout=subprocess.PIPE, stderr=subprocess.PIPE,
-                           text=True, timeout=3600, env=ENV)
-        got = [json.loads(l) for l in p.stdout.splitlines() if l.strip().startswith("{") and l.rstrip().endswith("}")]
-        if p.returncode == 0:
+        limit = int(60 + 0.001 * len(rest))      # a batch of 100 000 requests takes about ten seconds
+        timed_out = False
+        try:
+            p = subprocess.run([RUNNER_BIN], input="\n".join(rest) + "\n", stdout=subprocess.PIPE, stderr=subprocess.PIPE,
+                               text=True, timeout=limit, env=ENV)
+            stdout, stderr, rc = p.stdout, p.stderr, p.returncode
+        except subprocess.TimeoutExpired as e:
+            timed_out = True
+            stdout = e.stdout.decode("utf-8", "replace") if isinstance(e.stdout, bytes) else (e.stdout or "")
+            stderr, rc = "", None
+        got = [json.loads(l) for l in stdout.splitlines() if l.strip().startswith("{") and l.rstrip().endswith("}")]
+        if timed_out:
+            got = got[:len(rest) - 1]
+            out += got + [{"panic": "no answer within %d s (process killed)" % limit, "hang": True}]
+            hangs += 1
+            if hangs >= 2:
+                # do not wait a minute for every further request of this kind: the rest of the batch is not run
+                out += [{"skipped": "two earlier requests of this batch did not terminate"}] * (len(lines) - len(out))
+            if len(out) == len(lines):
+                return out
+            continue
+        if rc == 0:
             if len(got) != len(rest):
                 raise InfraError("%s answered %d of %d requests" % (RUNNER_BIN, len(got), len(rest)))
             return out + got
-        if p.returncode > 0 or len(got) >= len(rest):
-            raise InfraError("%s exited with %s: %s" % (RUNNER_BIN, p.returncode, p.stderr[-2000:]))
+        if rc > 0 or len(got) >= len(rest):
+            raise InfraError("%s exited with %s: %s" % (RUNNER_BIN, rc, stderr[-2000:]))
         # killed by a signal while answering request number len(got)
-        out += got + [{"panic": "process killed by signal %d (no unwinding)" % -p.returncode, "crash": True, "stderr": p.stderr[-400:]}]
+        out += got + [{"panic": "process killed by signal %d (no unwinding)" % -rc, "crash": True, "stderr": stderr[-400:]}]
         if len(out) == len(lines):
             return out
 
